@@ -206,8 +206,8 @@ def retime(ctx, report, clause="1"):
                 src_t = times if lang == "en-US" else times[1:]
                 want = [(a * skew + off, b * skew + off, f"{lang}{i}") for i, (a, b) in enumerate(src_t)]
                 keep = [w for w in want if w[0] >= 0]
-                lst = cs.attrs["_captions"].get(lang)
-                lst = lst.attrs["__list__"] if isinstance(lst, Stub) else lst
+                from .foldutil import captions_by_language
+                lst = captions_by_language(cs, F, "adjust_caption_timing").get(lang, [])
                 got = [(c.attrs["start"], c.attrs["end"], "".join(x.attrs.get("content") or "" for x in c.attrs["nodes"])) for c in lst]
                 case = {"skew": skew, "offset": off, "language": lang}
                 if [g[2] for g in got] != [k[2] for k in keep]:
